@@ -24,7 +24,7 @@ if os.path.exists(rp):
             continue
         mid = l.split(':', 1)[0]
         ex = re.search(r'exit=(\d+)', l)
-        cls = re.search(r'class=(\S+)', l)
+        cls = re.search(r'class=(.+?) key=', l)
         desc = ''
         dp = f'/verif/sensitivity/{mid}.diff'
         if os.path.exists(dp):
